@@ -1755,9 +1755,11 @@ ASSUMPTIONS = [
     "results of interrupted calls themselves are not compared (only that later calls are unaffected)",
 ]
 
-RULE = ("one case = (spec, schedule): history mode = 3-20 API calls (compile, tatsu.parse, model.parse, to_python_sourcecode, load+parser.parse, to_python_model, drop+gc) over 16 grammars x names x settings x "
-        "semantics kinds x inputs, with faults (FailedSemantics / foreign exception from the k-th action call, KeyboardInterrupt/MemoryError/RecursionError at the N-th line); every call is compared with the "
-        "same call in a fresh forked process and every live model/parser/config is dumped before and after every call. threads mode = 2-4 caller threads on shared models, pre-empted at line/opcode events. "
+RULE = ("one case = (spec, schedule): history mode = 2-20 API calls (compile, tatsu.parse, model.parse, to_python_sourcecode, load+parser.parse, to_python_model, drop+gc, churn of short-lived parser objects) "
+        "over ~30 grammars in 7 families x names x settings x semantics kinds x builder options (incl. caller-kept BuilderConfig / constructors objects and typedef modules) x inputs; generated as free histories, family-focused "
+        "histories, pair templates and builder histories; faults: FailedSemantics / foreign exception from the k-th action call, KeyboardInterrupt/MemoryError/RecursionError at the N-th line. Every call is compared with the "
+        "same call in a fresh forked process; every live model/parser and every caller-owned config object is dumped before and after every call. threads mode = 2-4 caller threads on shared models (and models they compile "
+        "themselves, possibly with the same compile() call), pre-empted at line events, with staggered arrival (after N lines / at the n-th line of a named function). "
         "Non-trivial: >=2 calls (history) or >=1 context switch (threads). Distinct: distinct digests of (call labels, result digests, decisions).")
 
 
